@@ -459,3 +459,14 @@ func DiffItems(want, got map[string]string) string {
 	}
 	return strings.Join(msgs, "; ")
 }
+
+// Gen generates a payload of the named signal ("logs", "traces", "metrics").
+func (sh Shape) Gen(tp *simkit.Tape, ids *IDs, signal string) any {
+	switch signal {
+	case "logs":
+		return Logs(tp, ids, sh)
+	case "traces":
+		return Traces(tp, ids, sh)
+	}
+	return Metrics(tp, ids, sh)
+}
